@@ -47,7 +47,7 @@ def run(R):
     with R.clause('D4', 'ORDER', floor=2, desc='close() before exitstatus; close() refreshes the status after closing the pty') as c:
         sc = repo.func('pty_spawn:spawn.close')
         gs = sc.cfg
-        cl_ = cfg_nodes_with_call(sc, lambda k: callee_last(k) == 'close' and (ctext(k.func.value, sc) or '').endswith('ptyproc'))
+        cl_ = cfg_nodes_with_call(sc, lambda k: callee_last(k) == 'close' and (ctext(k.func.value, sc, stale_ok=True) or '').endswith('ptyproc'))
         al_ = cfg_nodes_with_call(sc, lambda k: callee_last(k) == 'isalive' and ctext(k.func.value, sc) == 'self')
         okc = len(cl_) == 1 and len(al_) >= 1 and any(gs.dominated_by(a[0], {cl_[0][0]})[0] for a in al_)
         c.check(okc, sc, al_[0][1] if al_ else None, 'spawn.close() reads the child\'s status AFTER closing the pty (a child that exits because of the hang-up '
